@@ -377,6 +377,36 @@ def record_sibling_replace(nk, io, inew):
     return tr
 
 
+def record_wrong_parent_replace(nk, io, fresh):
+    """replace_child asked of a node that does NOT list the old child (the wrong parent, a sibling, the child itself): the call
+    fails - and a failing call discards nothing: the old child stays in its tree and stays registered."""
+    Node.store.clear()
+    w = World(clear=False)
+    par = Node("p")
+    kids = []
+    for k in range(nk):
+        c = Node("c")
+        c.add_child(Node("g%d" % k))
+        par.add_child(c)
+        kids.append(c)
+    other = Node("p")
+    other.add_child(Node("c"))
+    w.track_tree(par)
+    w.track_tree(other)
+    new = Node("c") if fresh else other.children[0]
+    if fresh:
+        w.track(new)
+    tr = {"init": slim(w.pi(all_fields())), "events": [], "desc": {"case": "replace_child asked of a node that does not list the old child", "children": nk, "old": io, "fresh_new_child": fresh}}
+    for asked in (other, kids[(io + 1) % nk], kids[io]):
+        try:
+            asked.replace_child(kids[io], new)
+            ok = True
+        except Exception:  # noqa: BLE001
+            ok = False
+        tr["events"].append({"op": "discarding", "args": [1, "replace_child"], "ok": ok, "ret": 0, "post": slim(w.pi(all_fields()))})
+    return tr
+
+
 def _walk(n):
     yield n
     for c in n.children:
@@ -476,6 +506,7 @@ def run(rep, tier, seed):
     ntr = 24 if tier == "quick" else 300
     traces = [t for chunk in parallel(w_eml, [seed * 31 + i for i in range(ntr)]) for t in chunk]
     traces += [record_sibling_replace(nk, io, inew) for nk in (2, 3, 4) for io in range(nk) for inew in range(nk) if io != inew]
+    traces += [record_wrong_parent_replace(nk, io, fresh) for nk in (2, 3) for io in range(nk) for fresh in (True, False)]
     Node.store.clear()
     rejects, _ = judge_traces(traces, PID, label="eml")
     rep.cov["traces_validated_against_impl"] += len(traces)
